@@ -309,6 +309,33 @@ func c01(c *core.Ctx) {
 		}
 	})
 
+	c.Run("block-gas-accounting", func() {
+		// miner and validator must account block gas identically: the pool is filled once from header.GasLimit on a fresh pool, debited only
+		// when gas is bought and credited only with the unused rest of a bought amount
+		add := c.Method("chain/types.GasPool", "AddGas")
+		sub := c.Method("chain/types.GasPool", "SubGas")
+		closedCallers(c, "GasPool.AddGas", []string{"(*chain/transaction.TxProcessor).Process", "(*chain/transaction.TxProcessor).ApplyTxs", "(*chain/transaction.TxProcessor).refundGas"}, add)
+		closedCallers(c, "GasPool.SubGas", []string{"(*chain/transaction.TxProcessor).buyGas"}, sub)
+		n := 0
+		for _, spec := range []string{"chain/transaction.TxProcessor.Process", "chain/transaction.TxProcessor.ApplyTxs"} {
+			fn := c.Fn(spec)
+			for _, ci := range core.CallsIn(fn, add) {
+				n++
+				a := ci.Common().Args
+				_, fresh := a[0].(*ssa.Alloc)
+				okArg := len(a) == 2 && core.SliceHasField(core.Slice(a[1]), c.FieldVar("chain/types.Header", "GasLimit"))
+				body, _ := core.LoopOf(ci.Block())
+				c.Check("gas-pool-filled-once@"+shortFn(fn), "value-flow", fresh && okArg && body == nil, ci.Pos(), "%s fills a fresh gas pool once with header.GasLimit (fresh=%v, from GasLimit=%v, inside a loop=%v)", shortFn(fn), fresh, okArg, body != nil)
+			}
+		}
+		c.Floor("gas-pool-fills", n, 2)
+		rf := c.Fn("chain/transaction.TxProcessor.refundGas")
+		for _, ci := range core.CallsIn(rf, add) {
+			a := ci.Common().Args
+			c.Check("refundGas:AddGas(restGas)", "value-flow", len(a) == 2 && a[1] == rf.Params[len(rf.Params)-1] || len(a) == 2 && core.Slice(a[1])[rf.Params[len(rf.Params)-1]], ci.Pos(), "only the unused rest of the gas a transaction bought returns to the pool")
+		}
+	})
+
 	c.Clause("C01.3", "the transaction-type tables agree: dispatcher, gas table, data check and recipient check are each exhaustive over the 11 tx types and end in a rejecting default")
 	c.Run("tx-type-tables", func() {
 		// the tx type constants: untyped/uint16 constants of package params whose names end in Tx and that the dispatcher switches on
@@ -393,6 +420,11 @@ func c01(c *core.Ctx) {
 		}
 		c.Check("Process?tx.GasUsed≠gas", "quantity-guard", found, p.Pos(), "the gas the block claims for a transaction is compared with the gas its execution used, and a mismatch rejects")
 	})
+
+	// C01.6: "the result does not depend on which other transactions the miner tried and discarded" needs an exact revert: the change-journal
+	// clauses of C07 (journal-before-write, undo covers do, sibling setters, payload types, snapshot/revert pairing) are necessary conditions of
+	// C01 as well and are evaluated here under their C07 keys.
+	c07(c)
 
 	c.NotDecidedf("that two executions produce equal hashes and equal account state (a value property); EVM arithmetic; nondeterminism hidden in cgo (secp256k1) or goleveldb; order-insensitivity of the table-listed loops is confirmed by reading, not proved")
 }
